@@ -1340,12 +1340,13 @@ def r5_8_cached_field_follows_cursor(ck, P):
                     if not adv:
                         continue
                     for Xp in xps:
-                        res = []
+                        res = []; cached_fields = set()
                         for A in adv:
                             ok = False
                             for y in f.users(A):
                                 if y.op != 'getelementptr':
                                     continue
+                                fkey = tuple(tuple(st[1:3]) for st in y.d.get('path', []) if st and st[0] == 'f')
                                 for z in f.users(y):
                                     if z.op != 'load':
                                         continue
@@ -1357,7 +1358,7 @@ def r5_8_cached_field_follows_cursor(ck, P):
                                                 continue
                                             s2.add(r.i)
                                             if r.i == Xp.i:
-                                                ok = True
+                                                ok = True; cached_fields.add(fkey)
                                             elif r.op in ('phi', 'sext', 'zext', 'trunc') and r.bb.id in blocks:
                                                 w2.append(r)
                             res.append(ok)
@@ -1365,8 +1366,35 @@ def r5_8_cached_field_follows_cursor(ck, P):
                             continue
                         ck.saw(f)
                         where = '%s/%s loop at block %d: %s cached from %s (%d advance sites)' % (u.name, fn, hdr, Xp.dv or 'value', Pp.dv or 'cursor', len(adv))
+                        # the cache is the authority inside the loop: the raw field of the current element is not read again
+                        raw = None
                         if all(res):
+                            for b in sorted(blocks):
+                                for z in f.blocks[b].insts:
+                                    if z.op != 'load':
+                                        continue
+                                    y = f.v(z.a[0])
+                                    if y is None or y.op != 'getelementptr' or y.a[0] != ['v', Pp.i]:
+                                        continue
+                                    if tuple(tuple(st[1:3]) for st in y.d.get('path', []) if st and st[0] == 'f') not in cached_fields:
+                                        continue
+                                    s3 = set(); w3 = [z]; into = False
+                                    while w3 and not into:
+                                        q = w3.pop()
+                                        for r in f.users(q):
+                                            if r.i in s3:
+                                                continue
+                                            s3.add(r.i)
+                                            if r.i == Xp.i:
+                                                into = True
+                                            elif r.op in ('phi', 'sext', 'zext', 'trunc') and r.bb.id in blocks:
+                                                w3.append(r)
+                                    if not into:
+                                        raw = z
+                        if all(res) and raw is None:
                             ck.ok(R, where)
+                        elif all(res):
+                            ck.violation(R, fn, 'raw read of the cached field at %s (%s)' % (raw.loc(), _w(u)), '%s keeps %s as its own running copy of a field of the element %s points to (it is moved on inside the loop, e.g. past a subtrahend), yet at %s the field is read from the element again and used directly: that value ignores everything the loop has already consumed of this element' % (fn, Xp.dv or 'a variable', Pp.dv or 'the cursor', raw.loc()), raw.loc())
                         else:
                             A = adv[res.index(False)]
                             ck.violation(R, fn, 'advance of %s at %s (%s)' % (Pp.dv or 'the cursor', A.loc(), _w(u)), '%s is re-read from the new element at %d of the %d places that advance %s, but not after the advance at %s: on that path it keeps a value taken from the previous rectangle, so the next rectangle is processed from a left edge that is not its own' % (Xp.dv or 'the cached value', sum(res), len(res), Pp.dv or 'the cursor', A.loc()), A.loc())
@@ -1528,3 +1556,66 @@ def r7_9_word_skip_depends_on_run_state(ck, P):
                     ck.violation(R, fn, 'word test at %s (%s)' % (bad.loc(), _w(u)), 'whether the per-bit loop at block %d runs is decided at %s from the bitmap word alone, without a test of the run state: a word that cannot open a run can still have to close the one that is open (and the reverse), so skipping it extends or drops a run' % (H, bad.loc()), bad.loc())
                 else:
                     ck.ok(R, where)
+
+
+_AXIS_EXEMPT = {
+    # (function, (A, side, B, side)): reason
+    ('validate', ('box', 'start', 'rit', 'end')): 'structure, not geometry: within a band a box that touches the previous one is merged (x1 <= x2), while a box whose top touches the bottom of the band opens a new band (y1 >= y2)',
+}
+
+
+def r7_10_axis_symmetry(ck, P):
+    """sibling agreement between the two axes: where a function compares a start edge of one box with an end edge of another in x and in
+    y, both comparisons put the touching case on the same side (boxes are half-open in both directions)."""
+    R = ck.rule('C07-R10', 'wherever a region function compares the same pair of boxes edge against edge in both axes (x1 of A with x2 of B, and y1 of A with y2 of B), the two comparisons classify the touching case a == b the same way: half-open boxes that merely touch are disjoint in y exactly as they are in x', floor=50)
+    SW = {'slt': 'sgt', 'sgt': 'slt', 'sle': 'sge', 'sge': 'sle'}
+    EQ = {'slt': 0, 'sge': 0, 'sle': 1, 'sgt': 1}
+    for u in units(P):
+        for fn, f in sorted(u.functions.items()):
+            G = defaultdict(list)
+            def key(o):
+                x = f.v(o)
+                while x is not None and x.op in ('sext', 'zext', 'trunc') and not x.dv:
+                    o = x.a[0]; x = f.v(o)
+                if x is None or x.op != 'load':
+                    return None
+                p = f.path(x.a[0]); r = f.root(p)
+                fs = [s for s in p[1] if isinstance(s, str) and '.' in s]
+                if not fs:
+                    return None
+                fld = fs[-1].split('.')[-1]
+                if fld not in ('x1', 'x2', 'y1', 'y2'):
+                    return None
+                if r[0] == 'phi':
+                    nm = f.by_id[r[1]].dv or 'phi%d' % r[1]
+                elif r[0] == 'arg':
+                    nm = (f.params[r[1]][0] or 'arg%d' % r[1]) + ''.join('/' + str(s) for s in p[1][:-1])
+                else:
+                    nm = str(r)
+                return (nm, fld[0], 'start' if fld[1] == '1' else 'end')
+            for x in f.insts():
+                if x.op != 'icmp' or x.d['p'] not in SW:
+                    continue
+                a, b = key(x.a[0]), key(x.a[1])
+                if a is None or b is None or a[1] != b[1]:
+                    continue
+                p = x.d['p']
+                if (a[0], a[2]) > (b[0], b[2]):
+                    a, b = b, a; p = SW[p]
+                G[(a[0], a[2], b[0], b[2])].append((a[1], EQ[p], x))
+            for k, v in sorted(G.items()):
+                ax = defaultdict(set)
+                for axis, e, x in v:
+                    ax[axis].add(e)
+                if len(ax) != 2:
+                    continue
+                ck.saw(f)
+                base = fn.replace('pixman_region32_', '').replace('pixman_region_', '')
+                where = '%s/%s: %s.%s vs %s.%s' % (u.name, fn, k[0], k[1], k[2], k[3])
+                if ax['x'] == ax['y']:
+                    ck.ok(R, where)
+                elif (base, k) in _AXIS_EXEMPT or (fn, k) in _AXIS_EXEMPT:
+                    ck.ok(R, where, 'exempt: ' + _AXIS_EXEMPT.get((base, k), _AXIS_EXEMPT.get((fn, k))))
+                else:
+                    xs = [x for a_, e, x in v if a_ == 'x']; ys = [x for a_, e, x in v if a_ == 'y']
+                    ck.violation(R, fn, '%s %s edge vs %s %s edge (%s)' % (k[0], k[1], k[2], k[3], _w(u)), 'the x comparison at %s and the y comparison at %s between the %s edge of %s and the %s edge of %s put the touching case on opposite sides: two boxes that merely touch are treated as overlapping in one axis and as disjoint in the other' % (xs[0].loc(), ys[0].loc(), k[1], k[0], k[3], k[2]), ys[0].loc())
